@@ -91,15 +91,17 @@ def rule_framing(ctx: Ctx):
     rc = RuleResult("CMP-2", "length-prefix unframe: the two 'enough bytes available' comparisons are inclusive (>=)")
     L = "rxsci/framing/line.py"
     # ---- line.frame ------------------------------------------------------
+    from .common import settled_params, with_settled
     site, spec = _h(ctx, L, "frame._frame.on_subscribe")
     r.instances += 1
     wdelim = None
+    wconsts = settled_params(ctx, L, "frame")
     for p in ctx.paths(spec, None, {}):
         r.paths += 1
         ems = [m for m in emissions(p) if m.method == "on_next"]
         ok = len(ems) == 1
         if ok:
-            v = ems[0].eff.arg
+            v = with_settled(ems[0].eff.arg, wconsts)
             cs = [c for c in _consts(v) if isinstance(c, str) and c != ""]
             has_item = any(x == EV for x in subterms(v))
             ok = has_item and len(cs) == 1
@@ -112,6 +114,7 @@ def rule_framing(ctx: Ctx):
     site, spec = _h(ctx, L, "unframe._unframe.on_subscribe")
     r.instances += 1
     rdelim = None
+    rconsts = settled_params(ctx, L, "unframe")
     carry_names = set()
     for p in ctx.paths(spec, None, {}, max_iter=1):
         carry_names |= {e.name for e in p.trace if e.k == "nonlocal"}
@@ -123,11 +126,12 @@ def rule_framing(ctx: Ctx):
         if not _normal(p):
             continue
         splits = [e for e in p.trace if e.k == "call" and e.d.get("method") == "split" and e.base == EV]
-        ok = len(splits) == 1 and len(splits[0].args) == 1 and splits[0].args[0][0] == "const"
+        sarg = with_settled(splits[0].args[0], rconsts) if len(splits) == 1 and len(splits[0].args) == 1 else None
+        ok = sarg is not None and sarg[0] == "const"
         if not ok:
             r.ob(False, lambda: mk_finding("FR-1", spec, None, {}, p, "the chunk must be split once on the line delimiter", extra="split"))
             continue
-        rdelim = splits[0].args[0][1]
+        rdelim = sarg[1]
         lines = splits[0].result
         # carry-over prepended to the first piece
         pre = [e for e in p.trace if e.k == "substore" and e.base == lines and e.index == ("const", 0)]
@@ -747,10 +751,15 @@ def rule_codec(ctx: Ctx):
                                                              "%s must default to incremental=True (chunk boundaries may cut multi-byte sequences)" % fname))
         site = ctx.site(rel, "%s._%s.on_subscribe" % (fname, fname))
         var = "the subscription's incremental %sr" % fname[:-1]
+        from .common import settled_params, with_settled
+        settled = settled_params(ctx, rel, fname)
 
         def is_codec(t, getter=getter):
             """codecs.getincremental*(encoding)() built from the encoding parameter"""
-            return t[0] == "call" and t[1][0] == "call" and t[1][1] == ("glob", getter) and not [a for a in t[2] if a[0] != "kw"] \
+            # the codec object may be given the error scheme, as long as it is the default one ('strict': library fact), literally or
+            # through a parameter every caller in the repository leaves at 'strict'
+            extra = [with_settled(a[2] if a[0] == "kw" else a, settled) for a in t[2]] if t[0] == "call" else []
+            return t[0] == "call" and t[1][0] == "call" and t[1][1] == ("glob", getter) and all(x == ("const", "strict") for x in extra) and len(extra) <= 1 \
                 and t[1][2] and t[1][2][0][0] == "param" and t[1][2][0][1] == "encoding"
 
         def codec_base(base, env):
@@ -828,6 +837,8 @@ def rule_codec(ctx: Ctx):
                 given["incremental"] = ast.unparse(node.args[1])
             for k in node.keywords:
                 given[k.arg] = ast.unparse(k.value)
+            if given.get("errors") == "'strict'":
+                given.pop("errors")         # the default error scheme, spelled out
             r.ob(given == {"encoding": "encoding"}, lambda node=node: Finding(
                 "CD-1", "rxsci/container/json.py{%s}" % ast.unparse(node), jm.where(node),
                 "json files must be encoded/decoded incrementally with the encoding parameter; call: %s" % ast.unparse(node)))
